@@ -698,8 +698,8 @@ class Fn:
                 return "const:%r" % (cv,)
             return "const:" + c.get("s", "?")
         if k == "arg":
-            nm = self.name_of_local(v["n"])
-            return "arg:%s" % (nm or v["n"])
+            # positional: parameter names are free to change
+            return "arg:%d" % v["n"]
         if k == "call":
             c = v["call"]
             if depth < 3:
